@@ -63,7 +63,7 @@ def _plan(tier: str) -> list[tuple[str, int, int]]:
             out.append((name, 2000, 1))
         else:
             n = 8 * heavy.get(name, 1)
-            out.append((name, 100_000 // n, n))
+            out.append((name, 60_000 // n, n))
     return out
 
 
